@@ -1031,3 +1031,193 @@ def gen_case(rng, quick=True, held=True, driver=None, n_ops=None):
         nq, nfinal = 8, (-1 if driver == "h5" and rng.random() < 0.3 else 40 if driver == "h5" else 16)
     ops = gen_history(rng, n, driver, insts, held=held, nq=nq, nfinal=nfinal, obs=obs)
     return dict(driver=driver, ops=ops, insts=insts, obs=obs)
+
+
+# --------------------------------------------------------------------------- model lines
+_ENVINFO = {}
+
+
+def get_envinfo():
+    """Ask the real plugin system (in a worker process) for the schema environment."""
+    if not _ENVINFO:
+        from .. import pool
+
+        r = pool.run_one("harness.props.ctr_common", "env_info", {}, timeout=300)
+        if "ok" not in r:
+            raise lean.InfraError("cannot read the schema environment: %r" % (r,))
+        _ENVINFO.update(r["ok"])
+    return _ENVINFO
+
+
+def env_lines(info):
+    L = []
+    for s in info["schemas"]:
+        L.append("env-schema %s %s %s %s %s %s" % (s["name"], vstr(s["ver"]), "T" if s["aux"] else "F", s["pkg"][0], vstr(s["pkg"][1]),
+                                                   ",".join(ep(n, v) for n, v in s["parents"])))
+    for p in info["pkgs"]:
+        L.append("env-pkg %s %s %s" % (p["name"], vstr(p["ver"]), ",".join(ep(n, v) for n, v in p["plugins"]) or "-"))
+    return L
+
+
+def sub_line(s):
+    if s[0] == "set":
+        return "set:%s:%s:%s" % (s[1], vstr(s[2]), "!bad" if s[3] < 0 else "i%d" % s[3])
+    if s[0] == "del":
+        return "del:%s" % s[1]
+    return "get:%s:%s" % (s[1], vstr(s[2]))
+
+
+def op_line(op):
+    k = op[0]
+    if k == "grp":
+        return "grp %s" % op[1]
+    if k == "ds":
+        return "ds %s %s" % (op[1], op[2])
+    if k == "del":
+        return "del %s" % op[1]
+    if k == "copy":
+        return "copy %s %s %s" % (op[1], op[2], "T" if op[3] else "F")
+    if k == "move":
+        return "move %s %s" % (op[1], op[2])
+    if k == "mset":
+        return "meta %s %s" % (op[1], sub_line(["set"] + op[2:]))
+    if k == "mdel":
+        return "meta %s %s" % (op[1], sub_line(["del", op[2]]))
+    if k == "mseq":
+        return "meta %s %s" % (op[1], ",".join(sub_line(s) for s in op[2]))
+    if k in ("reopen", "patch"):
+        return k
+    raise ValueError(op)
+
+
+def lines(case):
+    L = env_lines(get_envinfo()) + ["init"]
+    obs = case.get("obs") or [[] for _ in case["ops"]]
+    for op, items in zip(case["ops"], obs):
+        L.append(op_line(op))
+        L.append("dump")
+        L.append("caches " + UNKNOWN)
+        L.append("obs " + (",".join("%s:%s:%s:%s" % (k, n, name, vstr(ver)) for k, n, name, ver in items) or "-"))
+    return L
+
+
+def n_prefix():
+    return len(env_lines(get_envinfo())) + 1
+
+
+# --------------------------------------------------------------------------- canonicalisation / comparison
+_UU = re.compile(r"[0-9a-f]{8}-[0-9a-f]{4}-[0-9a-f]{4}-[0-9a-f]{4}-[0-9a-f]{12}|\{u\d+\}")
+
+
+class Canon:
+    """Renames uuids by first appearance (new uuids of one step ordered by the masked path of
+    their metadata object), identically for the implementation and the model."""
+
+    def __init__(self):
+        self.m = {}
+
+    def learn(self, entries):
+        new = []
+        for p, c in entries:
+            for u in _UU.findall(p):
+                if u not in self.m and u not in new:
+                    new.append(u)
+        keyed = []
+        for u in new:
+            objs = sorted((_UU.sub("#", p), c) for p, c in entries if c.startswith("o:") and p.endswith("=" + u))
+            lks = sorted(_UU.sub("#", p) for p, c in entries if c.startswith("l:") and p.endswith("/" + u))
+            keyed.append(((0, objs[0]) if objs else (1, (lks[:1] or [""])[0], ""), u))
+        keyed.sort(key=lambda x: (x[0][0], x[0][1:]))
+        for _, u in keyed:
+            self.m[u] = "#%d" % len(self.m)
+
+    def sub(self, s):
+        return _UU.sub(lambda m: self.m.get(m.group(0), "#?"), s)
+
+
+def norm_dump(entries, canon):
+    canon.learn(entries)
+    out = []
+    for p, c in entries:
+        if c.startswith("p:"):
+            head, _, pl = c[2:].partition(":")
+            c = "p:%s:%s" % (head, ",".join(sorted(x for x in pl.split(",") if x)))
+        out.append([canon.sub(p), canon.sub(c)])
+    out.sort(key=lambda e: e[0].split("/"))
+    return out
+
+
+def norm_caches(o, canon):
+    r = dict(o)
+    r["schemas"] = sorted(o["schemas"])
+    r["packages"] = sorted("%s:%s" % (x.partition(":")[0], ",".join(sorted(y for y in x.partition(":")[2].split(",") if y))) for x in o["packages"])
+    r["children"] = {k: sorted(v) for k, v in o["children"].items()}
+    r["versions"] = {k: sorted(v) for k, v in o["versions"].items()}
+    r["links"] = sorted([canon.sub(a), canon.sub(b)] for a, b in o["links"])
+    return r
+
+
+C20_CACHE_KEYS = ("schemas", "len", "packages", "parent_path", "provider", "contains")
+
+
+def compare_parts(parts):
+    """parts ⊆ {status, dump, caches, obs, selfdesc}: which observations are binding."""
+
+    def compare(case, ir, mo):
+        a = ir.get("out")
+        k = n_prefix()
+        mo = mo[k:]
+        if len(a) != len(mo):
+            return "length %d vs %d" % (len(a), len(mo))
+        ci, cm = Canon(), Canon()
+        for i in range(0, len(a), 4):
+            step = i // 4
+            op = case["ops"][step]
+            if "status" in parts and a[i] != mo[i]:
+                return "step %d %s: status impl=%r model=%r" % (step, op, a[i], mo[i])
+            try:
+                di, dm = norm_dump(json.loads(a[i + 1]), ci), norm_dump(json.loads(mo[i + 1]), cm)
+                oi, om = norm_caches(json.loads(a[i + 2]), ci), norm_caches(json.loads(mo[i + 2]), cm)
+            except Exception as e:  # noqa: BLE001
+                raise lean.InfraError("cannot parse driver output at step %d: %r\n%s" % (step, e, mo[i + 1][:300]))
+            if "dump" in parts and di != dm:
+                x = [e for e in di if e not in dm][:3]
+                y = [e for e in dm if e not in di][:3]
+                return "step %d %s: raw tree differs; only impl: %s; only model: %s" % (step, op, x, y)
+            if "selfdesc" in parts:
+                f = lambda d: [e for e in d if e[0].startswith("/metador_container/schemas") or e[0].startswith("/metador_container/packages")]  # noqa: E731
+                if f(di) != f(dm):
+                    return "step %d %s: schema/package records differ: impl=%s model=%s" % (step, op, f(di)[:6], f(dm)[:6])
+                for key in C20_CACHE_KEYS:
+                    if oi[key] != om[key]:
+                        return "step %d %s: %s differs: impl=%s model=%s" % (step, op, key, _short(oi[key], om[key]), _short(om[key], oi[key]))
+            if "caches" in parts:
+                for key in sorted(oi):
+                    if oi[key] != om.get(key):
+                        return "step %d %s: cache observation %s differs: impl=%s model=%s" % (step, op, key, _short(oi[key], om.get(key)), _short(om.get(key), oi[key]))
+            if "obs" in parts:
+                xi = a[i + 3].split("|") if a[i + 3] else []
+                xm = mo[i + 3].split("|") if mo[i + 3] else []
+                if len(xi) != len(xm):
+                    return "step %d: %d vs %d observations" % (step, len(xi), len(xm))
+                items = (case.get("obs") or [])[step]
+                for j, (u, v) in enumerate(zip(xi, xm)):
+                    if u.startswith("q=") and v.startswith("q=") and not u.startswith("q=err") and not v.startswith("q=err") and u != "q=nonode":
+                        ok = sorted(x for x in u[2:].split(",") if x) == sorted(x for x in v[2:].split(",") if x)
+                    elif u.startswith("g=obj:") and v.startswith("g=obj:"):
+                        si, sm = set(u[6:].split("/")), set(v[6:].split("/"))
+                        ok = bool(si) and si <= sm
+                    else:
+                        ok = u == v
+                    if not ok:
+                        return "step %d %s: observation %s impl=%r model=%r" % (step, op, items[j], u, v)
+        return None
+
+    return compare
+
+
+def _short(a, b):
+    if isinstance(a, dict) and isinstance(b, dict):
+        ks = [k for k in a if a[k] != b.get(k)][:3]
+        return {k: a[k] for k in ks}
+    return str(a)[:300]
